@@ -14,7 +14,7 @@ cmake --build $B -j8 >$DEST/build.log 2>&1; BRC=$?
 ctest --test-dir $B -j8 --timeout 900 >$DEST/ctest.log 2>&1; TRC=$?
 SUITE=$(grep -E "tests passed|tests failed" $DEST/ctest.log | tail -1)
 g++ -std=c++14 -I $WT/include $OUT/demo.cpp -o $WT/demo_$N 2>$DEST/demo_build.log; ($WT/demo_$N >$DEST/demo_with.log 2>&1); DW=$?
-cd /verif
+cd ${VERIF_DIR:-/verif}
 for P in ${PID//,/ }; do
   VERIF_REPO_INCLUDE=$WT/include ./verif check $P --tier $TIER >$DEST/check_$P.log 2>&1; echo "check $P rc=$? : $(grep -c '^VIOLATION' $DEST/check_$P.log) VIOLATION lines" | tee -a $DEST/summary.txt
 done
